@@ -127,6 +127,25 @@ Proof.
   - destruct Hi as [<-|Hi]; [eauto | destruct (IH i Hi) as (t & A & B); eauto].
 Qed.
 
+Lemma NoDup_snoc : forall (l : list nat) x, NoDup l -> ~ In x l -> NoDup (l ++ [x]).
+Proof.
+  induction l as [|y l IH]; intros x N H; cbn.
+  - constructor; auto.
+  - inversion N; subst. constructor.
+    + intros X. apply in_app_or in X as [X|[X|[]]]; [auto | subst; apply H; left; auto].
+    + apply IH; auto. intros X. apply H. right. auto.
+Qed.
+
+Lemma nodup_push_stop : forall l, NoDup (execs l) -> NoDup (execs (l ++ [Stop])).
+Proof. intros. rewrite execs_app. cbn. now rewrite app_nil_r. Qed.
+
+Lemma nodup_push_exec : forall l n t, NoDup (execs l) -> (forall x, In (Execute x) l -> tid x < n) -> tid t = n ->
+  NoDup (execs (l ++ [Execute t])).
+Proof.
+  intros l n t N H E. rewrite execs_app. cbn. apply NoDup_snoc; auto. intros X.
+  apply (execs_lt _ _ H) in X. lia.
+Qed.
+
 (* ---------- per-arbiter invariant (FIFO core) ---------- *)
 Definition started (a : arb) : list nat := tids (alog a).
 
@@ -138,17 +157,18 @@ Record AInv (n : nat) (a : arb) : Prop := {
   ai_inj : forall t t', In (Execute t) (hist a) -> In (Execute t') (hist a) -> tid t = tid t' -> t = t';
   ai_lq : forall t, In t (lq a) -> In (Execute t) (hist a);
   ai_self : forall t, In (Execute t) (hist a) -> tkind t = KStopSelf -> In (tid t) (started a) -> has_stop (hist a) = true;
-  ai_id : forall e, In e (alog a) -> e_thr e = a_thr a /\ e_sys e = a_sys a
+  ai_id : forall e, In e (alog a) -> e_thr e = a_thr a /\ e_sys e = a_sys a;
+  ai_nodup : NoDup (execs (hist a))
 }.
 
 Lemma AInv_mono : forall n n' a, n <= n' -> AInv n a -> AInv n' a.
 Proof.
-  intros n n' a L [H1 H2 H3 H4 H5 H6 H7]. constructor; auto. intros t Ht. specialize (H3 t Ht). lia.
+  intros n n' a L [H1 H2 H3 H4 H5 H6 H7 H8]. constructor; auto. intros t Ht. specialize (H3 t Ht). lia.
 Qed.
 
 Lemma AInv_new : forall n thr sy pre, AInv n (mkArb [] [] Running [] thr sy pre []).
 Proof.
-  constructor; cbn; try (intros; contradiction); try congruence.
+  constructor; cbn; try (intros; contradiction); try congruence; try constructor.
   intros _. exists []. auto.
 Qed.
 
@@ -167,7 +187,7 @@ Proof. intros. unfold push. destruct (ph a) eqn:E; cbn; auto. Qed.
 Lemma AInv_push_stop : forall n a, AInv n a -> AInv n (push Stop a).
 Proof.
   intros n a I.
-  destruct (ph a) eqn:P; [ | | rewrite push_dropped by auto; exact I ]; destruct I as [H1 H2 H3 H4 H5 H6 H7].
+  destruct (ph a) eqn:P; [ | | rewrite push_dropped by auto; exact I ]; destruct I as [H1 H2 H3 H4 H5 H6 H7 H8].
   - rewrite push_live by congruence. rewrite P. constructor; cbn; unfold started in *; cbn.
     + intros _. destruct (H1 P) as (dn & E1 & E2 & E3). exists dn. rewrite E1, app_assoc. auto.
     + congruence.
@@ -177,6 +197,7 @@ Proof.
     + intros t Ht. apply in_or_app. left. auto.
     + intros. rewrite has_stop_app. cbn. apply orb_true_r.
     + auto.
+    + now apply nodup_push_stop.
   - rewrite push_live by congruence. rewrite P. constructor; cbn; unfold started in *; cbn.
     + congruence.
     + intros _. destruct H2 as [E1 E2]; [congruence|]. rewrite pre_stop_app_stop by auto. rewrite has_stop_app, E2. auto.
@@ -186,12 +207,13 @@ Proof.
     + intros t Ht. apply in_or_app. left. auto.
     + intros. rewrite has_stop_app. cbn. apply orb_true_r.
     + auto.
+    + now apply nodup_push_stop.
 Qed.
 
 Lemma AInv_push_exec : forall n a kd, AInv n a -> AInv (S n) (push (Execute (mkTask n kd)) a).
 Proof.
   intros n a kd I. destruct (ph a) eqn:P; [ | | rewrite push_dropped by auto; eapply AInv_mono; [|eauto]; lia ].
-  - destruct I as [H1 H2 H3 H4 H5 H6 H7].
+  - destruct I as [H1 H2 H3 H4 H5 H6 H7 H8].
     rewrite push_live by congruence. rewrite P. constructor; cbn; unfold started in *; cbn.
     + intros _. destruct (H1 P) as (dn & E1 & E2 & E3). exists dn. rewrite E1, app_assoc. auto.
     + congruence.
@@ -210,7 +232,8 @@ Proof.
         { rewrite E1, execs_app, E3. apply in_or_app. left. apply in_or_app. left. exact S0. }
         exfalso. apply (execs_lt _ _ H3) in Hin. lia.
     + auto.
-  - destruct I as [H1 H2 H3 H4 H5 H6 H7].
+    + eapply nodup_push_exec; eauto.
+  - destruct I as [H1 H2 H3 H4 H5 H6 H7 H8].
     rewrite push_live by congruence. rewrite P. constructor; cbn; unfold started in *; cbn.
     + congruence.
     + intros _. destruct H2 as [E1 E2]; [congruence|]. rewrite pre_stop_app_stop by auto. rewrite has_stop_app, E2. auto.
@@ -223,12 +246,13 @@ Proof.
     + intros t Ht. apply in_or_app. left. auto.
     + intros. destruct H2 as [E1 E2]; [congruence|]. rewrite has_stop_app, E2. auto.
     + auto.
+    + eapply nodup_push_exec; eauto.
 Qed.
 
 Lemma AInv_runner : forall n a, AInv n a -> AInv n (runner a).
 Proof.
   intros n a I. unfold runner. destruct (ph a) eqn:P; auto. destruct (chan a) as [|[|t] c] eqn:C; auto;
-    destruct I as [H1 H2 H3 H4 H5 H6 H7]; destruct (H1 P) as (dn & E1 & E2 & E3); rewrite C in E1.
+    destruct I as [H1 H2 H3 H4 H5 H6 H7 H8]; destruct (H1 P) as (dn & E1 & E2 & E3); rewrite C in E1.
   - (* Stop: the loop ends *)
     constructor; cbn; unfold started in *; cbn; auto; try congruence.
     intros _. rewrite E1. rewrite pre_stop_app_nostop by auto. cbn. rewrite app_nil_r, E3.
@@ -243,7 +267,7 @@ Qed.
 
 Lemma AInv_drop : forall n a, ph a = Ended -> AInv n a -> AInv n (drop_arb a).
 Proof.
-  intros n a P [H1 H2 H3 H4 H5 H6 H7]. unfold drop_arb.
+  intros n a P [H1 H2 H3 H4 H5 H6 H7 H8]. unfold drop_arb.
   constructor; cbn; unfold started in *; cbn; auto; try congruence.
   intros _. apply H2. congruence.
 Qed.
@@ -255,7 +279,7 @@ Proof. intros. unfold tids. apply map_app. Qed.
 Lemma AInv_start_plain : forall n a t q, ph a = Running -> lq a = t :: q -> tkind t <> KStopSelf ->
   AInv n a -> AInv n (start_task a).
 Proof.
-  intros n a t q P L K [H1 H2 H3 H4 H5 H6 H7]. destruct (H1 P) as (dn & E1 & E2 & E3).
+  intros n a t q P L K [H1 H2 H3 H4 H5 H6 H7 H8]. destruct (H1 P) as (dn & E1 & E2 & E3).
   unfold start_task. rewrite P, L.
   constructor; cbn; unfold started in *; cbn; try congruence; auto.
   - intros _. exists dn. split; auto. split; auto.
@@ -271,7 +295,7 @@ Qed.
 Lemma AInv_start_self : forall n a t q, ph a = Running -> lq a = t :: q ->
   AInv n a -> AInv n (push Stop (start_task a)).
 Proof.
-  intros n a t q P L [H1 H2 H3 H4 H5 H6 H7]. destruct (H1 P) as (dn & E1 & E2 & E3).
+  intros n a t q P L [H1 H2 H3 H4 H5 H6 H7 H8]. destruct (H1 P) as (dn & E1 & E2 & E3).
   unfold start_task. rewrite P, L. rewrite push_live by (cbn; congruence). cbn.
   constructor; cbn; unfold started in *; cbn; try congruence.
   - intros _. exists dn. rewrite E1, app_assoc. split; auto. split; auto.
@@ -282,6 +306,7 @@ Proof.
   - intros x Hx. apply in_or_app. left. apply H5. rewrite L. right. auto.
   - intros. rewrite has_stop_app. cbn. apply orb_true_r.
   - intros e He. apply in_app_or in He as [He|[<-|[]]]; auto.
+  - now apply nodup_push_stop.
 Qed.
 
 (* ---------- iterated stop (SystemController's Exit), registry helpers ---------- *)
